@@ -91,6 +91,13 @@ def Hist.outcome (h : Hist) (k : Nat) : List Nat :=
   (List.range k).map (fun j =>
     if req.contains j then 5 else if comp.contains j then 7 else if term.contains j then 6 else 0)
 
+/-- every `newflow F` has its `term F …` by the time completion is awaited (before the late phase) -/
+def allFlowsEnded (h : Hist) : Bool :=
+  let born := h.evs.filterMap (fun (_, w) => match w with | ["obs", "newflow", f] => some f | _ => none)
+  let dead := h.evs.filterMap (fun (p, w) =>
+    match w with | ["obs", "term", f, _] => if p ≤ 2 then some f else none | _ => none)
+  !born.isEmpty && born.all dead.contains
+
 def outcomeOf (c : Cfg) (s : St) : List Nat :=
   (List.range c.k).map (fun j =>
     match s.pc j with
@@ -180,6 +187,11 @@ def check (params lines : List String) : CaseResult := Id.run do
       r := { r with specs := s!"ebg_no_branch_continues: {competing.length} competing event(s) delivered ({mode}), no branch task was requested; outcome {showOutcome outcome}; instance complete={complete}" :: r.specs }
     else if req.length ≥ 2 then
       r := { r with specs := s!"ebg_two_branches_continue: branch tasks requested for alternatives {req}" :: r.specs }
+    else if !complete && allFlowsEnded h then
+      -- every flow the engine created has ended, so the wait group is at zero: completion was not REPORTED. That is
+      -- the completion monitor missing the start event at instance start-up (property C02), not the gateway.
+      r := { r with infos := "every flow ended but completion was not reported (start-up monitor race, property C02): completion not judged" :: r.infos }
+      settledRun := true
     else if !complete then
       r := { r with specs := s!"ebg_instance_never_completes: the branch of alternative {req} continued and was answered, outcome {showOutcome outcome}, the instance does not complete" :: r.specs }
     else
